@@ -129,31 +129,47 @@ theorem parse_path_never_panics (env : Env) (t : YNode) (h : fromYamlV3 t = true
 
 /-! ## sub-workflow discovery -/
 
-/-- The termination argument Lean accepted for `subworkflowCache` (no fuel): following a reference to a file that
-    exists and is not in the chain strictly decreases the number of files outside the chain. -/
-theorem chain_measure_decreases (fs : FS) (chain : List String) (p : String) (c : FileContent)
-    (hl : lookup fs p = some c) (hn : ¬ p ∈ chain) : unvisited fs (chain ++ [p]) < unvisited fs chain :=
+/-- The termination argument Lean accepted for `subworkflowCache` (no fuel): following a reference to a file that exists,
+    or to a key the caller supplied, and that is not in the chain strictly decreases the number of files plus the number
+    of supplied keys outside the chain. -/
+theorem chain_measure_decreases (fs : FS) (sup : Supplied) (chain : List String) (e : String)
+    (hv : (∃ c, lookup fs e = some c) ∨ (∃ c, supLookup sup e = some c)) (hn : ¬ e ∈ chain) :
+    measure fs sup (chain ++ [e]) < measure fs sup chain :=
+  measure_lt hv hn
+
+/-- … and the one for `checkSubworkflowCycles`: following a key that has a content and is not in the chain strictly
+    decreases the number of keys of the contents outside the chain. -/
+theorem check_measure_decreases (ctx : FS) (chain : List String) (p : String) (c : FileContent)
+    (hl : lookup ctx p = some c) (hn : ¬ p ∈ chain) : unvisited ctx (chain ++ [p]) < unvisited ctx chain :=
   unvisited_lt hl hn
 
-/-- For every finite file system (self-references, mutual references, any depth), every list of steps and every chain,
-    `subworkflowCache` returns a cache or an error.  No divergence: the function is total in Lean by well-founded
-    recursion on `unvisited fs chain` (`chain_measure_decreases`).  No panic: the result type has a `panic` outcome, and
-    no statement produces it — `StepWorkflowPaths` uses only checked assertions (pinned by
+/-- For every finite file system and every set of supplied files (self-references, mutual references, any depth), every
+    list of steps and every chain, `subworkflowCache` returns a cache or an error.  No divergence: the function is total
+    in Lean by well-founded recursion on `measure fs sup chain` (`chain_measure_decreases`).  No panic: the result type
+    has a `panic` outcome, and no statement produces it — `StepWorkflowPaths` uses only checked assertions (pinned by
     `unchecked_assertions_pinned`) and `FromYAML` returns a workflow or an error (`parse_path_never_panics`). -/
-theorem subworkflowCache_total (norm : String → String) (fs : FS) (steps : List Step)
+theorem subworkflowCache_total (norm : String → String) (fs : FS) (sup : Supplied) (steps : List Step)
     (acc : List (List String)) (chain : List String) :
-    (∃ files, subworkflowCache norm fs steps acc chain = .ok files) ∨
-    (∃ e, subworkflowCache norm fs steps acc chain = .error e) := by
-  cases h : subworkflowCache norm fs steps acc chain with
+    (∃ files, subworkflowCache norm fs sup steps acc chain = .ok files) ∨
+    (∃ e, subworkflowCache norm fs sup steps acc chain = .error e) := by
+  cases h : subworkflowCache norm fs sup steps acc chain with
   | ok files => exact Or.inl ⟨files, rfl⟩
   | error e => exact Or.inr ⟨e, rfl⟩
-  | panic s => exact absurd h (cache_no_panic norm fs _ chain rfl steps acc s)
+  | panic s => exact absurd h (cache_no_panic norm fs sup _ chain rfl steps acc s)
 
-/-- the file-cache part of `Parse` likewise -/
-theorem parseFiles_total (norm : String → String) (fs : FS) (root : String) :
-    (∃ files, parseFiles norm fs root = .ok files) ∨ (∃ e, parseFiles norm fs root = .error e) := by
-  cases h : parseFiles norm fs root with
-  | ok files => exact Or.inl ⟨files, rfl⟩
+/-- `checkSubworkflowCycles` likewise, for every contents (cyclic or not) -/
+theorem checkCycles_total (ctx : FS) (steps : List Step) (chain : List String) :
+    checkCycles ctx steps chain = .ok () ∨ ∃ e, checkCycles ctx steps chain = .error e := by
+  cases h : checkCycles ctx steps chain with
+  | ok u => exact Or.inl rfl
+  | error e => exact Or.inr ⟨e, rfl⟩
+  | panic s => exact absurd h (checkCycles_no_panic ctx _ chain rfl steps s)
+
+/-- the file-cache part of `Parse` likewise, for every cache the caller hands over -/
+theorem parseFiles_total (norm : String → String) (fs files : FS) (root : String) :
+    (∃ keys, parseFiles norm fs files root = .ok keys) ∨ (∃ e, parseFiles norm fs files root = .error e) := by
+  cases h : parseFiles norm fs files root with
+  | ok keys => exact Or.inl ⟨keys, rfl⟩
   | error e => exact Or.inr ⟨e, rfl⟩
   | panic s =>
     exfalso
@@ -164,27 +180,34 @@ theorem parseFiles_total (norm : String → String) (fs : FS) (root : String) :
     · split at h
       · cases h
       · rename_i s' hsub
-        exact cache_no_panic norm fs _ [] rfl _ [] s' hsub
-      · cases h
+        exact cache_no_panic norm fs _ _ [] rfl _ [] s' hsub
+      · split at h
+        · cases h
+        · rename_i s' hchk
+          exact checkCycles_no_panic _ _ [] rfl _ s' hchk
+        · cases h
 
-/-- file `q` is transitively referenced from the foreach steps of the root workflow -/
-def ReachFrom (norm : String → String) (fs : FS) (root q : String) : Prop :=
-  ∃ steps, lookup fs root = some (.wf steps) ∧ Reach norm fs steps q
+/-- file `q` is transitively referenced from the foreach steps of the root workflow of the caller's cache `files` (a
+    referenced key denotes the caller's file under that key if there is one, else the file on disk) -/
+def ReachFrom (norm : String → String) (fs files : FS) (root q : String) : Prop :=
+  ∃ steps, lookup files root = some (.wf steps) ∧ Reach norm fs (some files) steps q
 
-/-- If `Parse` gets past sub-workflow discovery, the merged cache holds the root and every transitively referenced
-    file, and each of them exists, converts and is not on a reference cycle.  Conversely, if some transitively
-    referenced file is missing, does not convert, or is on a reference cycle, the result is an error. -/
-theorem subworkflows_found_or_reported (norm : String → String) (fs : FS) (root : String) :
-    (∀ files, parseFiles norm fs root = .ok files →
-      root ∈ files ∧ ∀ q, ReachFrom norm fs root q →
-        q ∈ files ∧ (∃ st, lookup fs (norm q) = some (.wf st)) ∧ ¬ OnCycle norm fs q) ∧
-    ((∃ q, ReachFrom norm fs root q ∧
-        (lookup fs (norm q) = none ∨ lookup fs (norm q) = some .invalid ∨ OnCycle norm fs q)) →
-      ∃ e, parseFiles norm fs root = .error e) := by
-  have key : ∀ files, parseFiles norm fs root = .ok files →
-      root ∈ files ∧ ∀ q, ReachFrom norm fs root q →
-        q ∈ files ∧ (∃ st, lookup fs (norm q) = some (.wf st)) ∧ ¬ OnCycle norm fs q := by
-    intro files h
+/-- If `Parse` gets past sub-workflow discovery and the cycle check, the merged cache holds the root and every
+    transitively referenced file, and each of them exists, converts and is not on a reference cycle.  Conversely, if some
+    transitively referenced file is missing, does not convert, or is on a reference cycle, the result is an error.
+    (The CLI's cache is `contextCache norm fs root`: the root workflow alone, as it is on disk.) -/
+theorem subworkflows_found_or_reported (norm : String → String) (fs files : FS) (root : String) :
+    (∀ keys, parseFiles norm fs files root = .ok keys →
+      root ∈ keys ∧ ∀ q, ReachFrom norm fs files root q →
+        q ∈ keys ∧ (∃ st, denot norm fs (some files) q = some (.wf st)) ∧ ¬ OnCycle norm fs (some files) q) ∧
+    ((∃ q, ReachFrom norm fs files root q ∧
+        (denot norm fs (some files) q = none ∨ denot norm fs (some files) q = some .invalid ∨
+          OnCycle norm fs (some files) q)) →
+      ∃ e, parseFiles norm fs files root = .error e) := by
+  have key : ∀ keys, parseFiles norm fs files root = .ok keys →
+      root ∈ keys ∧ ∀ q, ReachFrom norm fs files root q →
+        q ∈ keys ∧ (∃ st, denot norm fs (some files) q = some (.wf st)) ∧ ¬ OnCycle norm fs (some files) q := by
+    intro keys h
     unfold parseFiles at h
     split at h
     · cases h
@@ -194,18 +217,26 @@ theorem subworkflows_found_or_reported (norm : String → String) (fs : FS) (roo
       · cases h
       · cases h
       · rename_i sub hsub
-        injection h with h
-        subst h
-        refine ⟨by simp, ?_⟩
-        rintro q ⟨steps', hl, hreach⟩
-        have := lookup_wf_inj hroot hl
-        subst this
-        have hg := cache_inv norm fs _ [] rfl steps [] sub hsub q hreach
-        exact ⟨by simp [hg.1], hg.2.2.1, hg.2.2.2⟩
+        split at h
+        · cases h
+        · cases h
+        · injection h with h
+          subst h
+          refine ⟨List.mem_append_right _ (lookup_mem hroot), ?_⟩
+          rintro q ⟨steps', hl, hreach⟩
+          have := lookup_wf_inj hroot hl
+          subst this
+          have hg := cache_inv norm fs (some files) _ [] rfl steps [] sub hsub q hreach
+          refine ⟨?_, hg.2.2.1, hg.2.2.2⟩
+          rcases hg.1 with hs | hm
+          · cases hq : supLookup (some files) q with
+            | none => simp [hq] at hs
+            | some c => exact List.mem_append_right _ (lookup_mem (show lookup files q = some c from hq))
+          · exact List.mem_append_left _ hm
   refine ⟨key, ?_⟩
   rintro ⟨q, hreach, hbad⟩
-  rcases parseFiles_total norm fs root with ⟨files, h⟩ | ⟨e, h⟩
-  · obtain ⟨_, hall⟩ := key files h
+  rcases parseFiles_total norm fs files root with ⟨keys, h⟩ | ⟨e, h⟩
+  · obtain ⟨_, hall⟩ := key keys h
     obtain ⟨_, ⟨st, hst⟩, hnc⟩ := hall q hreach
     rcases hbad with hb | hb | hb
     · rw [hst] at hb; cases hb
@@ -213,16 +244,42 @@ theorem subworkflows_found_or_reported (norm : String → String) (fs : FS) (roo
     · exact absurd hb hnc
   · exact ⟨e, h⟩
 
-/-- Completeness: sub-workflow discovery fails only when there is something to report — if the root converts and every
-    transitively referenced file exists, converts and is not on a reference cycle, the cache is built. -/
-theorem subworkflows_error_only_if_problem (norm : String → String) (fs : FS) (root : String) (steps : List Step)
-    (hroot : lookup fs root = some (.wf steps))
-    (hgood : ∀ q, ReachFrom norm fs root q → (∃ st, lookup fs (norm q) = some (.wf st)) ∧ ¬ OnCycle norm fs q) :
-    ∃ files, parseFiles norm fs root = .ok files := by
-  obtain ⟨files, hfiles⟩ := cache_complete norm fs _ [] rfl steps [] (fun q hq => by
+/-- Completeness: `Parse` fails in its file-cache part only when there is something to report — if the root converts and
+    every transitively referenced file exists, converts and is not on a reference cycle, the cache is built and passes
+    the cycle check. -/
+theorem subworkflows_error_only_if_problem (norm : String → String) (fs files : FS) (root : String) (steps : List Step)
+    (hroot : lookup files root = some (.wf steps))
+    (hgood : ∀ q, ReachFrom norm fs files root q →
+      (∃ st, denot norm fs (some files) q = some (.wf st)) ∧ ¬ OnCycle norm fs (some files) q) :
+    ∃ keys, parseFiles norm fs files root = .ok keys := by
+  obtain ⟨keys, hkeys⟩ := cache_complete norm fs (some files) _ [] rfl steps [] (fun q hq => by
     obtain ⟨hv, hc⟩ := hgood q ⟨steps, hroot, hq⟩
     exact ⟨hv, by simp, hc⟩)
-  exact ⟨files ++ [root], by simp [parseFiles, hroot, subworkflowCacheTop, hfiles]⟩
+  have hchk : checkCycles (mergedContents norm fs files keys) steps [] = .ok () := by
+    apply checkCycles_complete _ _ [] rfl
+    intro q hq
+    have hreach := keyReach_reach norm fs files keys hq
+    obtain ⟨⟨st, hst⟩, hnc⟩ := hgood q ⟨steps, hroot, hreach⟩
+    refine ⟨by simp, ?_, ?_⟩
+    · intro hinv
+      rw [merged_denot norm fs files keys q _ hinv] at hst
+      cases hst
+    · rintro ⟨st', hl, hcyc⟩
+      exact hnc ⟨st', merged_denot norm fs files keys q _ hl, q, keyReach_reach norm fs files keys hcyc, rfl⟩
+  exact ⟨keys ++ files.map Prod.fst, by simp [parseFiles, hroot, hkeys, hchk]⟩
+
+/-- Whatever discovery found: if the contents that are going to be used — the discovered files overridden by the
+    caller's — contain a reference cycle (by key) reachable from the root workflow, `Parse` returns an error instead of
+    handing them to `Prepare` (which would recurse without end).  The proof uses the check on the merged contents only. -/
+theorem parse_rejects_cycles_in_used_files (norm : String → String) (fs files : FS) (root : String) (steps : List Step)
+    (keys : List String) (hroot : lookup files root = some (.wf steps))
+    (hkeys : subworkflowCache norm fs (some files) steps [] [] = .ok keys) (q : String)
+    (hq : KeyReach (mergedContents norm fs files keys) steps q)
+    (hcyc : KeyOnCycle (mergedContents norm fs files keys) q) :
+    ∃ e, parseFiles norm fs files root = .error e := by
+  rcases checkCycles_total (mergedContents norm fs files keys) steps [] with h | ⟨e, h⟩
+  · exact absurd hcyc (checkCycles_sound _ _ [] rfl steps h q hq).2
+  · exact ⟨e, by simp [parseFiles, hroot, hkeys, h]⟩
 
 /-! ## the tie to the source: unchecked type assertions of the parse path -/
 
@@ -267,26 +324,26 @@ def cycleFS : FS :=
    ("a.yaml", .wf [foreachStep "b.yaml"]),
    ("b.yaml", .wf [foreachStep "a.yaml"])]
 
-theorem cycleFS_reaches_b : ReachFrom id cycleFS "workflow.yaml" "b.yaml" :=
+theorem cycleFS_reaches_b : ReachFrom id cycleFS (contextCache id cycleFS "workflow.yaml") "workflow.yaml" "b.yaml" :=
   ⟨_, rfl, .trans (p := "a.yaml") (by decide) rfl (.direct (by decide))⟩
 
-theorem cycleFS_b_on_cycle : OnCycle id cycleFS "b.yaml" :=
+theorem cycleFS_b_on_cycle : OnCycle id cycleFS (some (contextCache id cycleFS "workflow.yaml")) "b.yaml" :=
   ⟨_, rfl, "b.yaml", .trans (p := "a.yaml") (by decide) rfl (.direct (by decide)), rfl⟩
 
 /-- the 2-cycle is reported -/
-example : ∃ e, parseFiles id cycleFS "workflow.yaml" = .error e :=
-  (subworkflows_found_or_reported id cycleFS "workflow.yaml").2
+example : ∃ e, parseFiles id cycleFS (contextCache id cycleFS "workflow.yaml") "workflow.yaml" = .error e :=
+  (subworkflows_found_or_reported id cycleFS _ "workflow.yaml").2
     ⟨"b.yaml", cycleFS_reaches_b, Or.inr (Or.inr cycleFS_b_on_cycle)⟩
 
 /-- … and the error is the cycle error (computed by unfolding the model) -/
-example : parseFiles id cycleFS "workflow.yaml" = .error .cycle := by
-  simp [parseFiles, cycleFS, foreachStep, subworkflowCacheTop, subworkflowCache, loopFiles, lookup, stepWorkflowPaths,
-    addStepPath, stepPath, insertNew, allPresent]
+example : parseFiles id cycleFS (contextCache id cycleFS "workflow.yaml") "workflow.yaml" = .error .cycle := by
+  simp [parseFiles, contextCache, cycleFS, foreachStep, subworkflowCache, loopSupplied, loopFiles, supLookup, lookup,
+    stepWorkflowPaths, addStepPath, stepPath, insertNew, allPresent]
 
 /-- a reference to a file that does not exist is reported as missing -/
-example : parseFiles id [("workflow.yaml", .wf [foreachStep "gone.yaml"])] "workflow.yaml" = .error .missing := by
-  simp [parseFiles, foreachStep, subworkflowCacheTop, subworkflowCache, lookup, stepWorkflowPaths, addStepPath, stepPath,
-    insertNew, allPresent]
+example : parseFiles id [] [("workflow.yaml", .wf [foreachStep "gone.yaml"])] "workflow.yaml" = .error .missing := by
+  simp [parseFiles, foreachStep, subworkflowCache, loopSupplied, supLookup, lookup, stepWorkflowPaths, addStepPath,
+    stepPath, insertNew, allPresent]
 
 /-- a diamond (shared sub-workflow) is accepted and the shared file is in the cache -/
 def diamondFS : FS :=
@@ -295,9 +352,27 @@ def diamondFS : FS :=
    ("b.yaml", .wf [foreachStep "shared.yaml", .map (some (.str "foreach")) none]),
    ("shared.yaml", .wf [])]
 
-example : parseFiles id diamondFS "workflow.yaml" =
-    .ok ["shared.yaml", "shared.yaml", "shared.yaml", "a.yaml", "b.yaml", "workflow.yaml"] := by
-  simp [parseFiles, diamondFS, foreachStep, subworkflowCacheTop, subworkflowCache, loopFiles, lookup, stepWorkflowPaths,
-    addStepPath, stepPath, insertNew, allPresent]
+example : parseFiles id diamondFS (contextCache id diamondFS "workflow.yaml") "workflow.yaml" =
+    .ok ["shared.yaml", "shared.yaml", "shared.yaml", "shared.yaml", "a.yaml", "b.yaml", "workflow.yaml"] := by
+  simp [parseFiles, contextCache, diamondFS, foreachStep, subworkflowCache, loopSupplied, loopFiles, supLookup,
+    lookup, stepWorkflowPaths, addStepPath, stepPath, insertNew, allPresent, checkCycles, loopCheck, mergedContents]
+
+/-- the caller's files are followed by key and need not be on disk: nothing is on disk here -/
+example : parseFiles id [] [("workflow.yaml", .wf [foreachStep "a.yaml"]), ("a.yaml", .wf [])] "workflow.yaml" =
+    .ok ["workflow.yaml", "a.yaml"] := by
+  simp [parseFiles, foreachStep, subworkflowCache, loopSupplied, supLookup, lookup, stepWorkflowPaths, addStepPath,
+    stepPath, insertNew, checkCycles, loopCheck, mergedContents]
+
+/-- a supplied sub-workflow that references itself is reported although the copy on disk is acyclic -/
+example : parseFiles id [("a.yaml", .wf [])] [("workflow.yaml", .wf [foreachStep "a.yaml"]), ("a.yaml", .wf [foreachStep "a.yaml"])]
+    "workflow.yaml" = .error .cycle := by
+  simp [parseFiles, foreachStep, subworkflowCache, loopSupplied, supLookup, lookup, stepWorkflowPaths, addStepPath,
+    stepPath, insertNew]
+
+/-- the hypotheses of `parse_rejects_cycles_in_used_files` are about the check alone: a cyclic contents is reported by
+    it whatever was discovered -/
+example : checkCycles [("workflow.yaml", .wf [foreachStep "a.yaml"]), ("a.yaml", .wf [foreachStep "a.yaml"])]
+    [foreachStep "a.yaml"] [] = .error .cycle := by
+  simp [checkCycles, loopCheck, foreachStep, lookup, stepWorkflowPaths, addStepPath, stepPath, insertNew]
 
 end Arca.Props.C11
